@@ -381,6 +381,13 @@ let () = register "pipeline" (fun args ->
                          (String.concat ";" (List.map (fun ((mx, tr), mt) -> Printf.sprintf "%d:%d:%d" (int_of_z mt) (int_of_z tr) (int_of_n (bits_of_f32 (Obj.magic mx)))) meets))) nodes))))))
   | _ -> "BADARGS")
 
+(* dmat <seq hex>...: the distance matrix of the model (nucleotide codes), binary32 bits row-major *)
+let () = register "dmat" (fun args ->
+  let seqs = List.map bytes_of_hexstr args in
+  let amb = nthZ (z_of_int (-1)) alpha_defDNA (z_of_int 78) in
+  let codes = List.map (fun s -> convert alpha_defDNA amb s) seqs in
+  "OK " ^ String.concat "," (List.concat (List.map (fun row -> List.map (fun x -> string_of_int (int_of_n (bits_of_f32 x))) row) (distance_matrix codes))))
+
 let main () =
   try
     while true do
